@@ -344,10 +344,13 @@ mod unit {
         "A0000000001", "A00000000001", "MZZZZZZ1", "NAAAAAA1", "1048576", "4294967296", "aA1", "Aa1", "A1a1", "[1", "@1", "`1", "{1", "/1", ":1",
     ];
 
-    pub fn malformed(rep: &mut Report, drv: &mut Driver, rng: &mut Rng, n: u64) {
+    pub fn malformed_corpus(rep: &mut Report, drv: &mut Driver) {
         for s in MALFORMED_CORPUS {
             one_a1(rep, drv, s.as_bytes(), None);
         }
+    }
+
+    pub fn malformed(rep: &mut Report, drv: &mut Driver, rng: &mut Rng, n: u64) {
         let alpha: &[u8] = b"AZaz09AB19$: \xc3@[`{/";
         let mut batch: Vec<(Vec<u8>, Option<String>)> = Vec::with_capacity(256);
         for _ in 0..n {
@@ -420,10 +423,13 @@ mod unit {
         ("A1 :B2", None),
     ];
 
-    pub fn dims(rep: &mut Report, drv: &mut Driver, rng: &mut Rng, n: u64) {
+    pub fn dims_corpus(rep: &mut Report, drv: &mut Driver) {
         for (s, e) in DIM_CORPUS {
             one_dim(rep, drv, s.as_bytes(), e.map(|x| x.to_string()));
         }
+    }
+
+    pub fn dims(rep: &mut Report, drv: &mut Driver, rng: &mut Rng, n: u64) {
         for _ in 0..n {
             let r0 = rng.below(1048576) as u32;
             let c0 = rng.below(16384) as u32;
@@ -1689,12 +1695,12 @@ fn main() {
     #[cfg(feature = "hooks")]
     {
         unit::sweeps(&mut rep, &mut drv);
-        unit::malformed(&mut rep, &mut drv, &mut rng, args.count(20_000, 10_000_000));
-        unit::dims(&mut rep, &mut drv, &mut rng, args.count(5_000, 1_000_000));
+        unit::malformed_corpus(&mut rep, &mut drv);
+        unit::dims_corpus(&mut rep, &mut drv);
     }
     #[cfg(not(feature = "hooks"))]
     rep.notes.push("verif-hooks unavailable: unit sweeps skipped".into());
-    let nfiles = args.count(3_000, 300_000);
+    let nfiles = args.count(3_000, 200_000); // thorough: 200k files + 50k lean-rendered + 66k malformed parts (≈10 min on 16 idle cores)
     // file / lean / malformed cases: seeds drawn from the one PRNG, then spread over worker threads
     // (each with its own driver process); thorough tier uses all cores
     let mut jobs: Vec<(u8, u64)> = vec![];
@@ -1706,6 +1712,15 @@ fn main() {
     }
     for _ in 0..(nfiles / 3).max(1) {
         jobs.push((2, rng.next() >> 1));
+    }
+    // random malformed references / dimensions: batches of 5000 / 1000 spread over the workers too
+    if cfg!(feature = "hooks") {
+        for _ in 0..args.count(20_000, 10_000_000) / 5000 {
+            jobs.push((3, rng.next() >> 1));
+        }
+        for _ in 0..args.count(5_000, 1_000_000) / 1000 {
+            jobs.push((4, rng.next() >> 1));
+        }
     }
     let nthreads = if args.thorough() { std::thread::available_parallelism().map(|n| n.get()).unwrap_or(4).min(16) } else { 2 };
     let chunks: Vec<Vec<(u8, u64)>> = (0..nthreads).map(|t| jobs.iter().skip(t).step_by(nthreads).copied().collect()).collect();
@@ -1722,7 +1737,12 @@ fn main() {
                         match k {
                             0 => file_case(seed, &mut r, &mut d),
                             1 => lean_case(seed, &mut r, &mut d),
-                            _ => malformed_case(seed, &mut r, &mut d),
+                            2 => malformed_case(seed, &mut r, &mut d),
+                            #[cfg(feature = "hooks")]
+                            3 => unit::malformed(&mut r, &mut d, &mut Rng::new(seed), 5000),
+                            #[cfg(feature = "hooks")]
+                            4 => unit::dims(&mut r, &mut d, &mut Rng::new(seed), 1000),
+                            _ => {}
                         }
                     }
                     r
